@@ -1,4 +1,4 @@
-CONSTANTS MaxN = 4 MaxDepth = 1000000 Lat <- MCLat
+CONSTANTS MaxN = 4 MaxDepth = 1000000 Lat <- MCLat DKs <- MCDKsFull
 INIT TInit
 NEXT TNext
 INVARIANT TInBounds
